@@ -106,6 +106,9 @@ OUTSIDE = ("strings that are no documented spelling and no prefix+unit split (us
            "cached before an edit (C13), define_unit on the process-wide default registry (C13), registries restored from JSON / "
            "pickle (C11)")
 CONFORM = {"quick": 8, "thorough": 16}
+# the histories that matter here are written inside the cases (custom/*, edit/*); the runner's sampled warm variants stay at the
+# number the thorough tier had before the named-row and edit families were added
+WARM_CAP = {"quick": 90, "thorough": 300}
 CHUNK = 100
 
 
